@@ -183,6 +183,11 @@ func (x *Exec) checkInvs(sp *LoopSpec, st *State, kind string, ord int) {
 	save := x.saveContractCtx()
 	x.contract = true
 	defer x.restoreContractCtx(save)
+	savePos := x.inlineLitPos
+	if p, ok := st.names["$loopPos"].(token.Pos); ok {
+		x.inlineLitPos = p // names of invariants denote what is in scope inside the loop
+	}
+	defer func() { x.inlineLitPos = savePos }()
 	for i, inv := range sp.Invs {
 		lab := inv.Label
 		if lab == "" {
@@ -199,6 +204,11 @@ func (x *Exec) assumeInvs(sp *LoopSpec, st *State) {
 	save := x.saveContractCtx()
 	x.contract = true
 	defer x.restoreContractCtx(save)
+	savePos := x.inlineLitPos
+	if p, ok := st.names["$loopPos"].(token.Pos); ok {
+		x.inlineLitPos = p
+	}
+	defer func() { x.inlineLitPos = savePos }()
 	for _, inv := range sp.Invs {
 		st.assume(x.evalBool(inv.Expr, st))
 	}
@@ -207,6 +217,7 @@ func (x *Exec) assumeInvs(sp *LoopSpec, st *State) {
 func (x *Exec) execFor(s *ast.ForStmt, st *State) []*State {
 	sp := x.loopSpecOf(s)
 	ord := x.loopOrd[s]
+	st.names["$loopPos"] = s.Body.Lbrace + 1
 	var out []*State
 	starts := []*State{st}
 	if s.Init != nil {
@@ -282,6 +293,7 @@ func (x *Exec) execRange(s *ast.RangeStmt, st *State) []*State {
 }
 
 func (x *Exec) execRange1(s *ast.RangeStmt, sp *LoopSpec, ord int, st *State) []*State {
+	st.names["$loopPos"] = s.Body.Lbrace + 1
 	xv, xt := x.eval(s.X, st)
 	base := asTerm(xv)
 	idxName := sp.Index
